@@ -182,6 +182,11 @@ def ddmin(items, fails, max_tests=4000):
 # replay files and known findings
 # ----------------------------------------------------------------------------------
 def write_replay(prop, seed, run_index, payload):
+    import re
+
+    if isinstance(payload.get("detail"), str):
+        # object addresses in exception texts are the one thing that differs between executions
+        payload["detail"] = re.sub(r"0x[0-9a-f]{6,}", "0x..", payload["detail"])
     os.makedirs(REPLAY_DIR, exist_ok=True)
     path = os.path.join(REPLAY_DIR, f"{prop}-{seed}-{run_index}.json")
     tmp = path + ".tmp"
